@@ -6,7 +6,7 @@ import time
 from contextlib import contextmanager
 
 
-class ItemTimeout(Exception):
+class ItemTimeout(BaseException):
     pass
 
 
